@@ -6,7 +6,11 @@ package frontend
 
 import (
 	"os"
+
+	"github.com/HobbyOSs/gosk/pkg/cpu"
 )
+
+var _ = cpu.MODE_16BIT
 
 func old[T any](x T) T { return x }
 
@@ -20,6 +24,7 @@ func specOpenOK(path string) bool {
 //@ props C19 C16 C17 C09 C10
 //@ option no-global-writes
 //@ calls[trunc@C10+C19] os.OpenFile : arg1&(os.O_CREATE|os.O_TRUNC) == os.O_CREATE|os.O_TRUNC
+//@ calls[init16@C17] ocode_client.NewCodegenClient : arg0 != nil && arg0.BitMode == cpu.MODE_16BIT
 //@ exits[open@C19]   !specOpenOK(assemblyDst) ==> vcExitCode() == 17
 //@ exits[codes@C19]  vcExitCode() != 0
 //@ exits[nowrite@C19] vcWriteCount() == 0 || (vcWriteCount() == 1 && vcExitCode() != 17)
